@@ -3,6 +3,7 @@ import PdsVerif.DriverLoop
 import PdsVerif.Model.Stft
 import PdsVerif.Model.StftRaw
 import PdsVerif.Model.Walk
+import PdsVerif.Model.TorchStft
 namespace PdsVerif.Model.StftDrv
 open PdsVerif PdsVerif.Model
 
@@ -74,11 +75,23 @@ def handleWalk (torch : Bool) (args : List String) : Option String := do
     some (showHits (if torch then Walk.runTorch D st len else Walk.run D st len))
   | _ => none
 
+/-- `tframes L S centered kaldi N` : the PyTorch port's framing of a signal of N samples; `X` = RuntimeError -/
+def handleTorchFrames (args : List String) : Option String := do
+  match args with
+  | [l, s, ce, ka, n] =>
+    let c : Stft.Cfg := { L := ← l.toNat?, S := ← s.toNat?, centered := ← parseBool ce, kaldi := ← parseBool ka }
+    if c.S = 0 ∨ c.L = 0 then none else
+    match TorchStft.frames c (List.range (← n.toNat?)) with
+    | some f => some (showFrames f)
+    | none => some "X"
+  | _ => none
+
 def dispatch (line : String) : String :=
   match tokens line with
   | "stft" :: args => (handleStft args).getD "bad-op"
   | "walk" :: args => (handleWalk false args).getD "bad-op"
   | "walkt" :: args => (handleWalk true args).getD "bad-op"
+  | "tframes" :: args => (handleTorchFrames args).getD "bad-op"
   | _ => "bad-op"
 
 end PdsVerif.Model.StftDrv
